@@ -563,6 +563,15 @@ func (c *Enc) elemHeap(elemT types.Type) (string, Sort) {
 	if isTimeType(elemT) {
 		name = "EL_time"
 	}
+	if b, ok := elemT.(*types.Basic); ok {
+		// byte and uint8 (rune and int32) are the same type
+		switch b.Kind() {
+		case types.Uint8:
+			name = "EL_uint8"
+		case types.Int32:
+			name = "EL_int32"
+		}
+	}
 	c.heapVar(name, ArraySort(SInt, ArraySort(SInt, es)))
 	return name, es
 }
